@@ -135,7 +135,12 @@ class LogRepFloat:
         if isinstance(other, LogRepFloat):
             if self.log_val >= other.log_val:
                 return LogRepFloat(log_val=log_diff_exp(self.log_val, other.log_val))
-            return self.val - other.val
+            # Difference is negative so cannot be represented as a LogRepFloat: compute
+            # magnitude in log space (difference of the values can be nan if both
+            # overflow and loses precision if they are nearly equal) and negate
+            return -LogRepFloat(
+                log_val=log_diff_exp(other.log_val, self.log_val),
+            ).val
         return self.val - other
 
     def __rsub__(self, other: ScalarLike) -> ScalarLike:
